@@ -9,7 +9,7 @@ use serde_json::{json, Value};
 
 fn main() {
     let a = args();
-    std::panic::set_hook(Box::new(|_| {}));
+    if std::env::var("VERIF_PANIC_VERBOSE").is_err() { std::panic::set_hook(Box::new(|_| {})); }
     if let Some(path) = a.get("replay") {
         let text = std::fs::read_to_string(path).expect("read replay");
         let v: Value = serde_json::from_str(&text).expect("json");
@@ -55,7 +55,12 @@ fn main() {
         for st in &d.trace {
             *ops_hist.entry(st["op"]["op"].as_str().unwrap_or("?").to_string()).or_default() += 1;
         }
-        println!("{}", json!({"seed": seed, "i": i, "profile": p.name, "cfg": d.cfg.to_json(), "settled": settled, "trace": d.trace}));
+        let cfgj = d.cfg.to_json();
+        let trace = std::mem::take(&mut d.trace);
+        // dropping every handle and the connection may trip the `unstable`-only debug assertion in
+        // `Drop for Store` (records still in the slab); record it instead of dying
+        let dropped = std::panic::catch_unwind(std::panic::AssertUnwindSafe(move || drop(d)));
+        println!("{}", json!({"seed": seed, "i": i, "profile": p.name, "cfg": cfgj, "settled": settled, "drop_panic": dropped.is_err(), "trace": trace}));
         h2::verif::stop();
     }
     println!("{}", json!({"summary": {"scenarios": n, "ops": ops_hist}}));
